@@ -227,7 +227,11 @@ PROPS = {
                        'range and the cursor between 0 and the number of characters of the focused line (ed_wf), takes exactly the step key_spec of the '
                        'plain reference editor over Seq<char> (insert/remove at the cursor, lazy copy of a focused history entry, Up/Down, Enter on a '
                        'blank new line clears it, otherwise submits), returns true exactly when that editor submits, and leaves the history list and '
-                       'the multi-command byte cursor unchanged; update_next == ed_focus, get_current == the focused line, is_next. ASSUMED there (Verus '
+                       'the multi-command byte cursor unchanged; update_next == ed_focus, get_current == the focused line, is_next. The real key loop '
+                       'read_line_raw (ghost log of the keys read) ends exactly when the reference editor run over that log submits, holding its '
+                       'text; its real caller read_line establishes the loop\'s precondition (empty line, cursor 0, index on the new line), hands on '
+                       'a non-blank line (the debug_assert is an obligation) equal to the reference editor\'s, and re-establishes the resting state. '
+                       'ASSUMED there (Verus '
                        'cannot reason about str bytes): insert_char_index / remove_char_index insert / remove the character at a CHARACTER index, '
                        'find_word_back / find_word_next return a value in [0, characters], chars().count() is the number of characters, '
                        'String::len is a byte length unrelated to it. BOUNDED stand-ins for exactly those helpers and for whole sessions (never '
@@ -238,7 +242,10 @@ PROPS = {
                         'are assumed in the Verus unit (external_body) and only enumerated to a bound on the real code',
                         'a String never holds more than usize::MAX characters (std invariant: at most isize::MAX bytes)',
                         'the exact target of Ctrl+Left/Right is not specified by the property (uninterpreted word_back / word_next, only their range)',
-                        'read_line / get_next_command (splitting the submitted line on ;), terminal drawing, raw mode, history file: not decided deductively '
+                        'the history file holds no blank line (precondition of read_line; a blank entry recalled with Up and submitted would trip '
+                        'read_line\'s debug_assert in a debug build — not demonstrated on the binary, needs a TTY and a hand-edited history file)',
+                        'history push (file write + comparison with the last entry) is a stand-in that may only append the submitted line',
+                        'get_next_command (splitting the submitted line on ;), terminal drawing, raw mode, history file: not decided deductively '
                         '(sessions enumerated to a bound)'],
     },
 }
